@@ -968,7 +968,7 @@ Everything above is about the messages handed to `connection.send_reply`.  For a
 `TCPRequestHandler.send_reply` (model `Node/Transport.lean`): the socket is a parameter — every `sendall` succeeds or raises
 (time-out of a peer that does not read, broken pipe, …) after any part of the frame. -/
 section transport
-open Frappy.Transport
+open Frappy.Transport Frappy.UpdateSys
 variable {F : Type}
 
 /-- For every sequence of `send_reply` calls — from any thread — and rounds of the handler loop, with any behaviour of the
@@ -1018,6 +1018,24 @@ theorem transport_activate_replay_eq_cache {V E X : Type} [DecidableEq E] (o : O
   intro hl
   rw [((served_receives_all ops).1 hl).1, hh]
   exact activate_replay_eq_cache o ex h e evs
+
+/-- The same for the concurrent system: in EVERY reachable state of every schedule of funnel calls, requests and activations,
+for a connection `k` entitled to parameter `p` with no call of `p`'s funnel in flight: if the frames handed to `k`'s TCP
+handler so far (messages of ALL parameters, interleaved in any way; `ops`: any socket behaviour, rounds anywhere) contain for
+`p` exactly `k`'s log, then — after a round of the handler loop, if the dispatcher still lists `k` — replaying the messages
+for `p` among what the peer RECEIVED gives the cached value-or-error of `p`. -/
+theorem transport_activation_coherent {V E X : Type} [DecidableEq E] (c : Cfg V E) (ex : V → X) (h : ExportExact c.o ex)
+    (init : Pid → Entry V E) (progs : Tid → List (Op V E)) (clock : Int) (s : Sys V E) (hn : c.conns.Nodup)
+    (hr : Reach c (Sys.init init progs clock c.act0) s) (k : Cid) (p : Pid) (hk : Sub c s k p)
+    (hfree : ∀ t, pcPid (s.thr t).pc ≠ some p)
+    (ops : List (TOp (Pid × Msg V E))) (hh : ((handed ops).filter (fun f => f.1 == p)).map (·.2) = plog s k p) :
+    (runT Conn.fresh (ops ++ [TOp.round])).listed = true →
+      replayO (known0 c ex init k p)
+        ((((received (runT Conn.fresh (ops ++ [TOp.round]))).filter (fun f => f.1 == p)).map (·.2)).map (fun m => m.ve.map ex)) =
+        some ((s.entries p).ve.map ex) := by
+  intro hl
+  rw [((served_receives_all ops).1 hl).1, hh]
+  exact activation_coherent c ex h init progs clock s hn hr k p hk hfree
 
 /-- … and for the whole statement, observation point by observation point: a stream that satisfies the statement where it
 is handed to `send_reply` (`TraceOkO`: no phantom, recovery and change announced, replay = cache after every operation)
